@@ -143,8 +143,53 @@ def run(ctx, report):
                              '(unequal operands tie; sorted() keeps input order)' % (f, c), where(mod, node),
                              witness='expr_simp(ds:@32[a] + es:@32[a]) keeps input order' if f == 'segm' else None)
                 bad = True
+        # a sub-expression field enters the key through key_expr (its whole content orders the operand, not its presence or its length)
+        for f in M.expr_fields(c):
+            occ = [n for n in ast.walk(ret) if isinstance(n, ast.Attribute) and isinstance(n.value, ast.Name) and n.value.id == e and n.attr == f]
+            deep = False
+            for n in occ:
+                q = parent(n)
+                while q is not None and q is not rets[0]:
+                    if isinstance(q, ast.Call) and u(q.func) in ('key_expr', 'key_expr_compose'):
+                        deep = True
+                    if isinstance(q, (ast.ListComp, ast.GeneratorExp)) and any(g.iter is n for g in q.generators) and isinstance(q.elt, ast.Call) \
+                            and u(q.elt.func) in ('key_expr', 'key_expr_compose'):
+                        deep = True
+                    q = parent(q)
+            if occ and not deep:
+                R1.violation(inst, 'key_expr:%s:%s:shallow' % (c, f), 'the sub-expression field %s of %s enters the ordering key without key_expr(..): operands that differ inside %s tie' % (f, c, f),
+                             where(mod, node))
+                bad = True
         if not bad:
             R1.ok(inst, sample='%s -> %s' % (c, u(ret)))
+
+    # the per-piece key of a concatenation: ExprCompose.__eq__ compares the pieces (expression, start, stop) in full
+    kc = mod.func('key_expr_compose')
+    pc = kc.args.args[0].arg
+    rets_c = [r.value for r in ast.walk(kc) if isinstance(r, ast.Return) and r.value is not None]
+    inst = 'key_expr_compose'
+    if len(rets_c) != 1:
+        raise AnalysisError('key_expr_compose: %d return statements' % len(rets_c))
+    comps = set()
+    for n_ in ast.walk(rets_c[0]):
+        if isinstance(n_, ast.Subscript) and isinstance(n_.value, ast.Name) and n_.value.id == pc and isinstance(n_.slice, ast.Constant):
+            par = parent(n_)
+            if n_.slice.value == 0:
+                if isinstance(par, ast.Call) and u(par.func) == 'key_expr':
+                    comps.add(0)
+            else:
+                comps.add(n_.slice.value)
+    missing_c = [i_ for i_ in (0, 1, 2) if i_ not in comps]
+    uses_it = any(isinstance(n_, ast.Call) and u(n_.func) == 'key_expr_compose' for n_ in ast.walk(fn))
+    if not uses_it:
+        raise AnalysisError('key_expr no longer builds the key of an ExprCompose from key_expr_compose')
+    if missing_c:
+        what = {0: 'the key of the piece\'s expression (key_expr(%s[0]))' % pc, 1: 'the start position', 2: 'the stop position'}
+        R1.violation(inst, 'key_expr_compose:%s' % ','.join(map(str, missing_c)), 'the key of one piece of a concatenation lacks %s: key_expr builds the key of an ExprCompose operand from it, so two '
+                     'different concatenations with the same layout tie and sorted() keeps the input order' % ' and '.join(what[i_] for i_ in missing_c), where(mod, kc),
+                     witness='expr_simp((x,0,16, y,16,32) + (z,0,16, w,16,32)) and the same sum with the operands exchanged differ')
+    else:
+        R1.ok(inst, sample='key_expr_compose -> %s' % u(rets_c[0]))
 
     R2 = report.rule('C13.D2', 'commutative sort precedes constant folding in the simplifier', floor=1)
     simp = None
@@ -245,6 +290,10 @@ def run(ctx, report):
     from .c15 import copy_visit_rule
     copy_visit_rule(ctx, R6, only='visit')
 
+    R8 = report.rule('C13.D8', 'copy() of every node class is a deep copy (the simplifier edits copies: D4 rests on it)', floor=8)
+    from .c15 import copy_visit_rule as _cvr
+    _cvr(ctx, R8, only='copy')
+
     # ---------------------------------------------------------------- D7 one representation per constant
     R7 = report.rule('C13.D7', 'a constant has one representation: the simplifier rebuilds a constant leaf of another integer type in the table\'s (unsigned) type, and every constant it builds '
                      'takes its type from that table or from a constant operand', floor=10)
@@ -320,4 +369,7 @@ MUTANTS = [
      '                for w in x.get_w():\n                    if w == zf:\n                        zf_w = True\n', 'C13.D3'),
     ('const-leaf-kept-signed', 'miasmx/expression/expression_helper.py', "        if t is not None and not isinstance(e.arg, t):\n            return ExprInt(t(e.arg))\n", "", 'C13.D7'),
     ('fold-keeps-operand-type', 'miasmx/expression/expression_helper.py', "                o = ExprInt(tab_size_int[i1.get_size()](o))", "                o = ExprInt(int32(o))", 'C13.D7'),
+    ('slice-copy-removed', 'miasmx/expression/expression.py', "    def copy(self):\n        return ExprSlice(self.arg.copy(), self.start, self.stop)\n", "", 'C13.D8'),
+    ('key-compose-position-only', 'miasmx/expression/expression.py', "    return (e[1], key_expr(e[0]), e[2])", "    return (e[1], e[2])", 'C13.D1'),
+    ('key-op-arity-only', 'miasmx/expression/expression.py', "        return [ 4, e.op ] + [ key_expr(e) for e in e.args ]", "        return [ 4, e.op, len(e.args) ]", 'C13.D1'),
 ]
